@@ -28,6 +28,9 @@ static bool     g_round_cancelled;       // some guard of the current round canc
 static bool     g_exit_guard_ran[VM_NS], g_entry_guard_ran[VM_NS];
 static unsigned g_guard_calls;
 static bool     g_guards_forbidden;      // replay must not consult guards (C09)
+static bool     g_watch_pending;         // C13: guards record what isPendingEnter/Exit/Change answer for every state (single pending request)
+static uint8_t  g_pend_seen, g_pend_enter[VM_NS], g_pend_exit[VM_NS], g_pend_change[VM_NS]; static bool g_pend_stable = true;
+static uint8_t  g_pend_req[VM_NS], g_pend_act[VM_NS];   // requested / active prong of the nearest composite region above each state, as the guards saw them
 static bool     g_expect_guards;         // request-processing steps: no state is exited / entered before its own guard was consulted (C04)
 // C04 substitution: the guard of state g_sub_guard (entry guard if g_sub_is_entry) vetoes round 1 and requests g_sub_dest instead
 static int      g_sub_guard = -1, g_sub_dest = 0; static bool g_sub_is_entry = true, g_sub_done, g_sub_forever;
@@ -107,6 +110,18 @@ struct St : VM_STATE_BASE(ID) {
 #ifdef VM_PAYLOAD
     check_payloads(c.pendingTransitions(), true);
 #endif
+    if (g_watch_pending) {
+      for (int s = 0; s < VM_NS; ++s) {
+        const bool e = c.isPendingEnter((StateID) s), x = c.isPendingExit((StateID) s), ch = c.isPendingChange((StateID) s);
+        if (g_pend_seen && (g_pend_enter[s] != e || g_pend_exit[s] != x || g_pend_change[s] != ch)) g_pend_stable = false;
+        g_pend_enter[s] = e; g_pend_exit[s] = x; g_pend_change[s] = ch;
+        int b = s, a = VM_SPEC[s].parent; while (a >= 0 && VM_SPEC[a].kind != K_COMPO) { b = a; a = VM_SPEC[a].parent; }
+        g_pend_req[s] = a >= 0 ? c._core.registry.compoRequested[VM_SPEC[a].fork] : INVALID_PRONG;
+        g_pend_act[s] = a >= 0 ? c._core.registry.compoActive[VM_SPEC[a].fork] : INVALID_PRONG;
+        (void) b;
+      }
+      g_pend_seen = 1;
+    }
     VASSERT(C09, !g_guards_forbidden, "replay does not consult guards");
     ++g_guard_calls; g_in_processing = true;
     int round = 1;
